@@ -1,5 +1,5 @@
 ------------------------------ MODULE NetcdfIOTrace ------------------------------
-(* record == [id, mode, grids, mv, dt, obs, dimsok]: obs[i] is what the real EEMSRead returned for grid i (mode "read": the grid as stored in a   *)
+(* record == [id, mode, grids, mv, dt, obs, dimsok, again]: obs[i] is what the real EEMSRead returned for grid i (mode "read": the grid as stored in a   *)
 (* file made with netCDF4; mode "write": after the real EEMSWrite wrote all grids together): <<"ok", kind, shape, cells>> | <<"err", class, is MPilot error>>; *)
 (* dimsok: the written dataset's dimension variables and coordinate values equal the template's.                                          *)
 EXTENDS NetcdfIO, Json, IOUtils
@@ -16,8 +16,12 @@ JudgeOne(exp, o, shape) ==
 Judge(t) ==
     IF t.mode = "read" THEN JudgeOne(Read(t.grids[1], t.mv, t.dt), t.obs[1], Shape(t.grids[1]))
     ELSE IF ~t.dimsok THEN "C18.Dims"
-    ELSE LET vs == [i \in 1..Len(t.grids) |-> JudgeOne(Read(Written(t.grids, i), <<>>, IF Kind(t.grids[i]) = "i" THEN "Integer" ELSE ""), t.obs[i], Shape(t.grids[i]))] IN
-         IF \E i \in 1..Len(vs) : vs[i] # "ok" THEN vs[CHOOSE i \in 1..Len(vs) : vs[i] # "ok"] ELSE "ok"
+    ELSE LET vs == [i \in 1..Len(t.grids) |-> JudgeOne(Read(Written(t.grids, i), <<>>, IF Kind(t.grids[i]) = "i" THEN "Integer" ELSE ""), t.obs[i], Shape(t.grids[i]))]
+             \* the first result written again, alone, after the joint write: the file holds exactly that result
+             ag == IF t.again = <<>> THEN "ok"
+                   ELSE JudgeOne(Read(Written(<<t.grids[1]>>, 1), <<>>, IF Kind(t.grids[1]) = "i" THEN "Integer" ELSE ""), t.again, Shape(t.grids[1])) IN
+         IF \E i \in 1..Len(vs) : vs[i] # "ok" THEN vs[CHOOSE i \in 1..Len(vs) : vs[i] # "ok"]
+         ELSE IF ag # "ok" THEN "C18.WriteAgain" ELSE "ok"
 TInit == tid \in 1..Len(Traces) /\ verdict = "pending" /\ grids = <<>> /\ mv = <<>> /\ dt = "" /\ out = <<>> /\ done = TRUE
 TNext == verdict = "pending" /\ verdict' = Judge(T) /\ UNCHANGED <<tid, grids, mv, dt, out, done>>
 TReport == verdict # "pending" => PrintT(<<"VERDICT", T.id, verdict>>)
